@@ -493,7 +493,7 @@ func (v *Validators) PayRewardsV5Fix(height uint64, period int64) (moreRewards *
 
 		stakes := v.bus.Candidates().GetStakes(validator.PubKey)
 		for _, stake := range stakes {
-			if stake.BipValue.Sign() == 0 {
+			if stake.BipValue.Sign() == 0 || validator.GetTotalBipStake().Sign() == 0 {
 				continue
 			}
 
